@@ -46,12 +46,85 @@ let rec z_of_int n = if n = 0 then Z0 else if n > 0 then Zpos (pos_of_int n) els
 and pos_of_int n = if n = 1 then XH else if n land 1 = 0 then XO (pos_of_int (n lsr 1)) else XI (pos_of_int (n lsr 1))
 let rec nat_of_int n = if n <= 0 then O else S (nat_of_int (n - 1))
 
+(* ---- untrusted search for a global order: depth-first over the actions in stamp order, an action may be overtaken by at
+   most `dmax` later ones (the recorder's stamps are taken right after each operation, so the true order is a bounded
+   displacement of the stamp order); every step is RootQR.rq_try (the model's own step function).  An enabled observation is
+   always taken first (it changes nothing but its thread's program point).  The order found is then executed by RootQR.replay
+   in strict mode, which is the result reported. *)
+let search (try_ : 'st -> ract -> 'st option) (s0 : 'st) (acts : ract array) (k : int) (dmax : int) (budget : int) : int list * bool =
+  let n = Array.length acts in
+  let tid_of = Array.map (fun a -> int_of_z a.r_tid) acts in
+  (* flexible actions (hidden steps, the first event of a thread: their place in the stamp order is only a lower bound) do
+     not hold the head of the order back *)
+  let flex = Array.map (fun a -> int_of_z a.r_code <> 0 || int_of_z a.r_word = 1) acts in
+  let prev = Array.make n (-1) in
+  let last = Hashtbl.create 64 in
+  for i = 0 to n - 1 do
+    (match Hashtbl.find_opt last tid_of.(i) with Some j -> prev.(i) <- j | None -> ());
+    Hashtbl.replace last tid_of.(i) i
+  done;
+  let donef = Array.make n false in
+  let stack = ref [] in           (* (state before, head before, lingering before, chosen, alternatives) *)
+  let state = ref s0 and head = ref 0 and ndone = ref 0 and steps = ref 0 and lingering = ref [] in
+  let order = ref [] in
+  let best = ref 0 and best_order = ref [] in
+  let result = ref None in
+  let advance () =
+    while !head < n && (donef.(!head) || flex.(!head)) do
+      if not donef.(!head) then lingering := !head :: !lingering;
+      incr head
+    done in
+  let apply i s' =
+    donef.(i) <- true; incr ndone; state := s'; order := i :: !order;
+    lingering := List.filter (fun j -> j <> i) !lingering;
+    advance ();
+    if !ndone > !best then begin best := !ndone; best_order := !order end in
+  let rec backtrack () =
+    match !stack with
+    | [] -> result := Some false
+    | (s, h, lg, i, alts) :: rest ->
+      donef.(i) <- false; decr ndone; state := s; head := h; lingering := lg; order := List.tl !order;
+      (match alts with
+       | [] -> stack := rest; backtrack ()
+       | (j, sj) :: more -> stack := (s, h, lg, j, more) :: rest; apply j sj) in
+  advance ();
+  while !result = None do
+    if !ndone = n then result := Some true
+    else begin
+      incr steps;
+      if !steps > budget then result := Some false
+      else begin
+        let ready i = (not donef.(i)) && (prev.(i) < 0 || donef.(prev.(i))) in
+        let cands = ref (List.filter ready (List.rev !lingering)) and cnt = ref 0 and i = ref !head in
+        cands := List.rev !cands;
+        while !i < n && !i < !head + dmax && !cnt < k do
+          if ready !i then begin cands := !i :: !cands; if not flex.(!i) then incr cnt end;
+          incr i
+        done;
+        let enabled = List.filter_map (fun i -> match try_ !state acts.(i) with Some s' -> Some (i, s') | None -> None) (List.rev !cands) in
+        let obs = List.filter (fun (i, _) -> acts.(i).r_obs) enabled in
+        (* a flexible action that writes (the first event of a new thread: it happened somewhere between the thread's creation
+           and its late stamp) is tried when the head of the order is blocked (it is probably what the head waits for), and
+           otherwise last *)
+        let fw = List.filter (fun (i, _) -> flex.(i) && not acts.(i).r_obs) enabled in
+        let nf = List.filter (fun (i, _) -> not (flex.(i) && not acts.(i).r_obs)) enabled in
+        let head_ok = List.exists (fun (i, _) -> i = !head) nf in
+        let enabled = if head_ok then nf @ fw else fw @ nf in
+        match obs, enabled with
+        | (i, s') :: _, _ -> stack := (!state, !head, !lingering, i, []) :: !stack; apply i s'
+        | [], (i, s') :: alts -> stack := (!state, !head, !lingering, i, alts) :: !stack; apply i s'
+        | [], [] -> backtrack ()
+      end
+    end
+  done;
+  if !result = Some true then (List.rev !order, true) else (List.rev !best_order, false)
+
 (* whole-run replay: "R <tid> <kind> <creates...>" starts a thread, "F <stamp> <event fields>" appends an event (stamps are
    already doubled by the caller so that synthetic events fit in between), "." ends it; "G <oc> <p0> <window>" abstracts
    every thread (RootQR.abstract), merges the actions by key (stable: program order is kept) and runs RootQR.replay *)
 let () =
   let sv = ref Z0 and evs = ref [] in
-  let rt = ref None and fevs = ref [] and threads = ref [] in
+  let rt = ref None and fevs = ref [] and threads = ref [] and chains = ref [] in
   try
     while true do
       let l = input_line stdin in
@@ -68,24 +141,35 @@ let () =
         | ["E"; k; o; ob; off; sz; a; b; ok] ->
           evs := { ek = z_of_hex k; eord = z_of_hex o; eobj = z_of_hex ob; eoff = z_of_hex off; esz = z_of_hex sz; ea = z_of_hex a;
                    eb = z_of_hex b; eok = z_of_hex ok } :: !evs
+        | "C" :: wd :: labs -> chains := (z_of_hex wd, List.map z_of_hex labs) :: !chains
         | "R" :: tid :: kind :: cr -> rt := Some (z_of_hex tid, z_of_hex kind, List.map z_of_hex cr); fevs := []
-        | ["F"; st; k; o; ob; off; sz; a; b; ok] ->
-          fevs := (z_of_hex st, { ek = z_of_hex k; eord = z_of_hex o; eobj = z_of_hex ob; eoff = z_of_hex off; esz = z_of_hex sz;
+        | ["F"; st; wd; wi; k; o; ob; off; sz; a; b; ok] ->
+          fevs := ((z_of_hex st, (z_of_hex wd, z_of_hex wi)), { ek = z_of_hex k; eord = z_of_hex o; eobj = z_of_hex ob; eoff = z_of_hex off; esz = z_of_hex sz;
                                    ea = z_of_hex a; eb = z_of_hex b; eok = z_of_hex ok }) :: !fevs
         | ["G"; oc; p0; w] ->
           let ocb = (oc = "1") in
           let per = List.rev_map (fun (tid, kind, cr, tr) ->
-            let acts = abstract ocb tid (start_pc kind) cr Z0 Z0 (List.map (fun (st, e) -> (Z.mul (Zpos (XO XH)) st, e)) tr) [] in
+            let acts = abstract ocb tid (start_pc kind) cr Z0 Z0 (List.map (fun ((st, wdi), e) -> ((Z.mul (Zpos (XO XH)) st, e), wdi)) tr) [] in
             let nev = List.length (List.filter (fun (_, a) -> int_of_z a.r_code = 0) acts) in
             (tid, List.length tr, nev, acts)) !threads in
           let rejected = List.filter (fun (_, n, nev, _) -> nev <> n) per in
           let all = List.concat (List.map (fun (_, _, _, acts) -> List.map (fun (k, a) -> (int_of_z k, a)) acts) per) in
           let sorted = List.stable_sort (fun (k1, _) (k2, _) -> compare k1 k2) all in
-          let res = replay ocb (z_of_hex p0) (nat_of_int (int_of_string w)) (List.map snd sorted) in
+          let acts = Array.of_list (List.map snd sorted) in
+          let n = Array.length acts in
+          let wi = int_of_string w in
+          let (found, complete) = search (rq_try ocb) (init_state (z_of_hex p0)) acts 24 wi (30 * n + 200000) in
+          (* the order found first, then whatever is left in stamp order: RootQR.replay executes it strictly *)
+          let used = Array.make n false in
+          List.iter (fun i -> used.(i) <- true) found;
+          let rest = List.filter (fun i -> not used.(i)) (List.init n (fun i -> i)) in
+          let final = List.map (fun i -> acts.(i)) (found @ rest) in
+          let res = replay ocb (z_of_hex p0) (nat_of_int 1) !chains final in
+          ignore complete;
           Printf.printf "%d %d |" (List.length sorted) (List.length rejected);
           List.iter (fun z -> Printf.printf " %s" (hex_of_z z)) res;
           Printf.printf "\n%!";
-          threads := []
+          threads := []; chains := []
         | _ -> failwith ("bad line: " ^ l)
       end
     done
